@@ -7,6 +7,7 @@ import (
 	"fmt"
 	"runtime"
 	"strconv"
+	"strings"
 	"sync"
 
 	service "github.com/irismod/service"
@@ -97,6 +98,19 @@ func permutations(n int) [][]int {
 	return out
 }
 
+// permutedSites names, in sorted order, the map ranges that a choice iterates in a non-sorted order.
+func permutedSites(calls []mapCall, choose map[int][]int) string {
+	set := map[string]bool{}
+	for i, p := range choose {
+		for j, pj := range p {
+			if j != pj {
+				set[calls[i].site] = true
+			}
+		}
+	}
+	return strings.Join(sortedKeys(set), "+")
+}
+
 const mapOrderCap = 720
 
 // enumerate calls run(choose) for every combination of iteration orders of the recorded map ranges.
@@ -175,10 +189,7 @@ func mapOrderCheck(rig *Rig, sc *Scenario, pre *State, a Action, post *State, re
 		var r1 *StepResult
 		withPlan(&mapPlan{choose: choose}, func() { p1, r1 = Exec(rig, sc, pre, a) })
 		if p1.StoreHash() != p0.StoreHash() || r1.Outcome() != r0.Outcome() || fmt.Sprint(eventsNoOrder(r1)) != fmt.Sprint(eventsNoOrder(r0)) {
-			site := ""
-			for i := range choose {
-				site = rec.calls[i].site
-			}
+			site := permutedSites(rec.calls, choose)
 			out = append(out, viol("C20", "independent-of-map-iteration-order", a.Kind, site,
 				fmt.Sprintf("iterating %s in another order changes the result of %s (outcome %s vs %s)", site, a.Name, r1.Outcome(), r0.Outcome())))
 		}
@@ -221,10 +232,7 @@ func mapOrderGenesis(rig *Rig, sc *Scenario, s *State, fresh *State, stt *mapOrd
 	enumerateOrders(rec.calls, stt, func(choose map[int][]int) {
 		h1, e1 := imp(&mapPlan{choose: choose})
 		if h1 != h0 || e1 != e0 {
-			site := ""
-			for i := range choose {
-				site = rec.calls[i].site
-			}
+			site := permutedSites(rec.calls, choose)
 			out = append(out, viol("C20", "independent-of-map-iteration-order", "import", site, "importing the same genesis with "+site+" iterated in another order gives a different state"))
 		}
 	})
